@@ -459,7 +459,7 @@ func c14Tags(d *oaDoc, m *spec.Method, w *rt.WireReq, site, loc string, schemaEr
 		node, stop = d.walk(d.requestBodySchema(w), path)
 	}
 	switch {
-	case strings.Contains(serverMsg, ".key must") || stop == "map-key":
+	case strings.Contains(serverMsg, ".key must") || strings.Contains(serverMsg, "[key] must") || stop == "map-key":
 		// OpenAPI 3.0 schemas cannot constrain the keys of a map
 		tags = append(tags, "schema:map-key-elem-validation-not-documented")
 	case stop == "free-form":
